@@ -72,6 +72,7 @@ type FnCtx struct {
 	inputs    []InputVar // parameters, for replay
 	assumptions map[string]bool
 	splitTerm Val
+	usedLemmas map[string]bool
 }
 
 type siteKey struct {
@@ -87,7 +88,7 @@ type InputVar struct {
 
 func newFnCtx(p *Prog, key string) *FnCtx {
 	return &FnCtx{prog: p, key: key, opaque: map[string]bool{}, siteOrd: map[string]int{}, siteSeen: map[siteKey]string{},
-		visits: map[string]int{}, loopOf: map[ast.Stmt]int{}, ghostObjs: map[string]types.Object{}, uncontracted: map[string]bool{}, externUsed: map[string]bool{}, visitsPre: map[string]int{}, entryCtr: map[string]Val{}, assumptions: map[string]bool{}}
+		visits: map[string]int{}, loopOf: map[ast.Stmt]int{}, ghostObjs: map[string]types.Object{}, uncontracted: map[string]bool{}, externUsed: map[string]bool{}, visitsPre: map[string]int{}, usedLemmas: map[string]bool{}, entryCtr: map[string]Val{}, assumptions: map[string]bool{}}
 }
 
 func (c *FnCtx) fresh(hint string, s Sort) string {
